@@ -487,11 +487,20 @@ def truth(test, assign):
     if isinstance(test, Lin):
         x = lin_eval(test, assign)
         return None if x is None else (x != 0)
+    if isinstance(test, S):
+        # a string is true when it has a character: known text, or any literal piece
+        if test.text() is not None:
+            return bool(test.text())
+        return True if any(x[0] == "lit" and x[1] for x in test.p) else None
     if not isinstance(test, tuple) or not test:
         return None
     h = test[0]
     if h == "k":
         return bool(test[1])
+    if h == "tuple" and len(test) == 2 and isinstance(test[1], tuple):
+        # a list / tuple whose items are known is true when it has one (generated items may be none at all)
+        known = [x for x in test[1] if not (isinstance(x, tuple) and x[:1] == ("star",))]
+        return True if known else (False if not test[1] else None)
     if h == "cmp":
         if not isinstance(test[2], (Lin,)) and not isinstance(test[3], (Lin,)):
             if test[2] == test[3] and test[1] in ("Eq", "NotEq", "Is", "IsNot"):
@@ -1365,6 +1374,44 @@ class Engine:
                 self._modconst[name] = v
         return self._modconst[name]
 
+    def _class_const(self, d):
+        """`Cls.NAME` for a module-level class whose body binds NAME once to a constant (a namespace of constants, an IntEnum): the constant.
+        A member of a plain Enum is not its value (it does not compare equal to it): only `Cls.NAME.value` is."""
+        parts = d.split(".")
+        if len(parts) not in (2, 3) or parts[0] not in self.classes:
+            return None
+        cache = self.mod.__dict__.setdefault("_c13_classconst", {})
+        if d in cache:
+            return cache[d]
+        cache[d] = None
+        c = self.classes[parts[0]]
+        bases = [(dotted(b) or "").split(".")[-1] for b in c.bases]
+        is_enum = any(b.endswith("Enum") or b.endswith("Flag") for b in bases)
+        int_like = any(b in ("IntEnum", "IntFlag", "StrEnum") for b in bases) or (is_enum and any(b in ("int", "str") for b in bases))
+        if len(parts) == 3 and not (is_enum and parts[2] == "value"):
+            return None
+        if len(parts) == 2 and is_enum and not int_like:
+            return None
+        defs = [n for n in c.body if (isinstance(n, ast.Assign) and len(n.targets) == 1 and isinstance(n.targets[0], ast.Name) and n.targets[0].id == parts[1])
+                or (isinstance(n, ast.AnnAssign) and isinstance(n.target, ast.Name) and n.target.id == parts[1] and n.value is not None)]
+        stores = [n for b in c.body for n in ast.walk(b) if isinstance(n, ast.Name) and isinstance(n.ctx, ast.Store) and n.id == parts[1]]
+        if len(defs) != 1 or len(stores) != 1 or not isinstance(defs[0].value, (ast.Constant, ast.UnaryOp, ast.BinOp, ast.Tuple)):
+            return None
+        if any(isinstance(n, ast.Attribute) and isinstance(n.ctx, (ast.Store, ast.Del)) and n.attr == parts[1] for n in ast.walk(self.mod.tree)) or \
+                any(isinstance(n, ast.Call) and (dotted(n.func) or "") in ("setattr", "delattr") for n in ast.walk(self.mod.tree)):
+            return None                    # the attribute may be rebound at run time
+        saved = self.locals
+        self.locals = set()
+        try:
+            v = self.ev(defs[0].value, State())
+        except Unsupported:
+            v = None
+        finally:
+            self.locals = saved
+        if isinstance(v, (Lin, S)) or _is_k(v):
+            cache[d] = v
+        return cache[d]
+
     # ------------------------------------------------------------------------------------------------------------ events
     def emit(self, st, kind, node, **d):
         self.seq += 1
@@ -1384,9 +1431,66 @@ class Engine:
     # ------------------------------------------------------------------------------------------------------------ run
     def run(self, body=None, state=None):
         st = state or State(self.env0)
+        if body is None and state is None:
+            outs = self._run_decorated(st)
+            if outs is not None:
+                self.finals = outs
+                return outs
         outs = self.block(body if body is not None else self.fn.body, [st])
         self.finals = outs
         return outs
+
+    def _run_decorated(self, st):
+        """a function decorated with helpers of its module (`@_card(start=4)`): what a caller runs is the decorated object.  The decorators are
+        applied (innermost first; one that is not a followed helper - functools.wraps, a decorator of another module - is taken as the identity, as
+        everywhere in this engine) and the result is called with the function's own parameters.  None when no decorator is a followed helper."""
+        fn = self.fn
+        if not self.follow or not getattr(fn, "decorator_list", None):
+            return None
+
+        def followed(d):
+            f = d.func if isinstance(d, ast.Call) else d
+            return isinstance(f, ast.Name) and f.id in self.follow and f.id not in st.env
+        if not any(followed(d) for d in fn.decorator_list):
+            return None
+        a = fn.args
+        if a.vararg or a.kwarg:
+            raise Unsupported(f"{fn.name}: decorated by a helper of the module and takes * / ** parameters")
+        self.funcnodes = getattr(self, "funcnodes", {})
+        self.funcnodes[id(fn)] = fn
+        cur = ("func", fn.name, id(fn))
+        saved = self.locals
+        self.locals = set(st.env)                     # the decorators are evaluated at module level: no local of the function is in sight
+        try:
+            for d in reversed(fn.decorator_list):
+                if not followed(d):
+                    continue
+                dv = self.ev(d, st) if isinstance(d, ast.Call) else ("sym", d.id)
+                call = ast.copy_location(ast.Call(func=_Val.of(dv), args=[_Val.of(cur)], keywords=[]), d)
+                call._vparent, call._vmod = getattr(d, "_vparent", None), getattr(d, "_vmod", None)
+                target = self.inlinable(call, st)
+                if target is None:
+                    raise Unsupported(f"{fn.name}: decorator {ast.unparse(d)[:60]} cannot be followed")
+                res = [(c, v) for c, v in self.inline(call, target, st) if c.status == "run"]
+                if len(res) != 1:
+                    raise Unsupported(f"{fn.name}: decorator {ast.unparse(d)[:60]} has {len(res)} paths")
+                st, cur = res[0]
+            pos = [_Val.of(self.env0[x.arg]) for x in a.posonlyargs + a.args]
+            kws = [ast.keyword(arg=x.arg, value=_Val.of(self.env0[x.arg])) for x in a.kwonlyargs]
+            call = ast.copy_location(ast.Call(func=_Val.of(cur), args=pos, keywords=kws), fn)
+            call._vparent, call._vmod = getattr(fn, "_vparent", None), getattr(fn, "_vmod", None)
+            target = self.inlinable(call, st)
+            if target is None:
+                raise Unsupported(f"{fn.name}: the decorated function is not something this engine can call ({show(cur)[:60]})")
+            outs = []
+            for c, v in self.inline(call, target, st):
+                if c.status == "run":
+                    self.emit(c, "return", fn, value=v)
+                    c.status = "return"
+                outs.append(c)
+            return outs
+        finally:
+            self.locals = saved
 
     def block(self, stmts, states):
         """run statements on every live state; returns all states (live and finished)"""
@@ -1405,10 +1509,15 @@ class Engine:
     def stmt(self, node, st):
         if isinstance(node, (ast.FunctionDef, ast.AsyncFunctionDef, ast.ClassDef)):
             if isinstance(node, ast.FunctionDef):
-                st.env[node.name] = ("func", node.name)
+                # the value names the definition that was executed (two `def`s of one name in different arms are different functions)
+                st.env[node.name] = ("func", node.name, id(node))
+                self.funcnodes = getattr(self, "funcnodes", {})
+                self.funcnodes[id(node)] = node
                 self.nested.setdefault(node.name, node)
                 self.defdepth = getattr(self, "defdepth", {})
                 self.defdepth[node.name] = len(st.frames)
+                self.defdepth[id(node)] = len(st.frames)
+                self._def_defaults(node.args, id(node), st)
             return [st]
         if isinstance(node, _YieldBlock):
             v = self.ev(node.value, st)
@@ -1447,9 +1556,34 @@ class Engine:
         if isinstance(node, ast.Match):
             chain = self._match_as_if(node)
             if chain is None:
-                raise Unsupported("match statement with patterns other than literal values")
+                raise Unsupported("match statement with patterns other than literal values, class tests without sub-patterns, captures and fixed-length sequences")
             return self.block(chain, [st])
         if isinstance(node, ast.Try):
+            miss = self._memo_try(node, st)
+            if miss is not None:
+                # `try: return MEMO[key]  except KeyError: <compute, store, return>`: the hit returns what an earlier miss stored under the same
+                # key, i.e. (the stored value being a function of the key - checked at the store) what the miss path computes
+                outs = self.block(miss.body, [st])
+                if node.finalbody:
+                    live = self.block(node.finalbody, [s for s in outs if s.status == "run"])
+                    outs = live + [s for s in outs if s.status != "run"]
+                return outs
+            lk = self._lookup_try(node, st)
+            if lk is not None:
+                # `try: x = TABLE[key]  except KeyError: ...` with a literal table: the body runs where the key is one of the table's, the handler
+                # where it is none of them
+                handler, hits, miss = lk
+                outs = []
+                for s_hit in hits:
+                    o2 = self.block(node.body, [s_hit])
+                    if node.orelse:
+                        o2 = self.block(node.orelse, [x for x in o2 if x.status == "run"]) + [x for x in o2 if x.status != "run"]
+                    outs.extend(o2)
+                if miss is not None:
+                    outs.extend(self.block(handler.body, [miss]))
+                if node.finalbody:
+                    outs = self.block(node.finalbody, [x for x in outs if x.status == "run"]) + [x for x in outs if x.status != "run"]
+                return outs
             outs = self.block(node.body, [st])
             live = [s for s in outs if s.status == "run"]
             rest = [s for s in outs if s.status != "run"]
@@ -1470,8 +1604,249 @@ class Engine:
             for s3 in self.helper_forks(node, s2):
                 if s3.status == "run":
                     self.simple(node, s3)
+                s3.pre = {}               # the values of the helper calls belong to this execution of the statement (a loop body may run again)
                 outs.append(s3)
         return outs
+
+    # ------------------------------------------------------------------------------------------------------------ memo dictionaries
+    _MISS_EXC = {"KeyError", "LookupError", "Exception", "BaseException"}
+
+    def _memo_info(self, name):
+        """a module-level dictionary that starts empty and is touched by one function only, through lookups and stores by key (`D[k]`, `D[k] = v`,
+        `k in D`, `D.get(k)`, `D.setdefault(k, v)`): a memo.  Returns {"func": that function, "sites": its call sites} or None.
+        What such a dictionary holds was put there by an earlier call of that function; when every value stored is a function of its key (checked
+        at each store, `_memo_store`) a lookup that hits returns exactly what the miss path computes."""
+        cache = self.mod.__dict__.setdefault("_c13_memo", {})
+        if name in cache:
+            return cache[name]
+        cache[name] = None
+        tree = self.mod.tree
+        defs = [st_ for st_ in tree.body if (isinstance(st_, ast.Assign) and len(st_.targets) == 1 and isinstance(st_.targets[0], ast.Name) and st_.targets[0].id == name)
+                or (isinstance(st_, ast.AnnAssign) and isinstance(st_.target, ast.Name) and st_.target.id == name and st_.value is not None)]
+        if len(defs) != 1:
+            return None
+        val = defs[0].value
+        empty = (isinstance(val, ast.Dict) and not val.keys) or (isinstance(val, ast.Call) and isinstance(val.func, ast.Name) and val.func.id == "dict"
+                                                               and not val.args and not val.keywords)
+        if not empty:
+            return None
+        deft = defs[0].targets[0] if isinstance(defs[0], ast.Assign) else defs[0].target
+        holder = None
+        for n in ast.walk(tree):
+            if isinstance(n, (ast.Global, ast.Nonlocal)) and name in n.names:
+                return None
+            if not (isinstance(n, ast.Name) and n.id == name) or n is deft:
+                continue
+            # the function the reference lives in (outermost)
+            f, top = getattr(n, "_vparent", None), None
+            while f is not None:
+                if isinstance(f, (ast.FunctionDef, ast.AsyncFunctionDef)):
+                    top = f
+                f = getattr(f, "_vparent", None)
+            if top is None or (holder is not None and top is not holder):
+                return None
+            holder = top
+            par = getattr(n, "_vparent", None)
+            gp = getattr(par, "_vparent", None)
+            if isinstance(par, ast.Subscript) and par.value is n and not isinstance(par.slice, ast.Slice) and not isinstance(par.ctx, ast.Del):
+                continue                                      # D[k] / D[k] = v
+            if isinstance(par, ast.Compare) and len(par.ops) == 1 and isinstance(par.ops[0], (ast.In, ast.NotIn)) and par.comparators[0] is n:
+                continue                                      # k in D
+            if isinstance(par, ast.Attribute) and par.value is n and par.attr in ("get", "setdefault") and isinstance(gp, ast.Call) and gp.func is par:
+                continue
+            return None
+        if holder is None:
+            return None
+        # the call sites of the holder: their keys must not collide unless the holder computes the value from the key alone
+        sites = []
+        for n in ast.walk(tree):
+            if isinstance(n, ast.Name) and n.id == holder.name and isinstance(n.ctx, ast.Load):
+                par = getattr(n, "_vparent", None)
+                if not (isinstance(par, ast.Call) and par.func is n):
+                    return None                               # handed around as a value
+                sites.append(par)
+        cache[name] = {"func": holder, "sites": sites}
+        return cache[name]
+
+    def _memo_holders(self):
+        """ids of the functions of the module that keep a memo dictionary"""
+        hs = self.mod.__dict__.get("_c13_memo_holders")
+        if hs is None:
+            hs = set()
+            for st_ in self.mod.tree.body:
+                tg = st_.targets[0] if isinstance(st_, ast.Assign) and len(st_.targets) == 1 else st_.target if isinstance(st_, ast.AnnAssign) else None
+                if isinstance(tg, ast.Name) and isinstance(getattr(st_, "value", None), (ast.Dict, ast.Call)):
+                    info = self._memo_info(tg.id)
+                    if info is not None:
+                        hs.add(id(info["func"]))
+            self.mod.__dict__["_c13_memo_holders"] = hs
+        return hs
+
+    def _memo_name(self, node):
+        """the memo dictionary an expression names, or None"""
+        if isinstance(node, ast.Name) and node.id not in self.locals and self._memo_info(node.id) is not None:
+            return node.id
+        return None
+
+    def _memo_try(self, node, st):
+        """the handler that is the miss path of `try: <one pure statement reading MEMO[key]>  except KeyError: ...`, or None"""
+        if len(node.body) != 1 or not isinstance(node.body[0], (ast.Return, ast.Assign, ast.AnnAssign, ast.Expr)):
+            return None
+        stmt = node.body[0]
+        reads = [n for n in ast.walk(stmt) if isinstance(n, ast.Subscript) and isinstance(n.ctx, ast.Load) and self._memo_name(n.value) is not None]
+        if not reads or any(isinstance(n, (ast.Call, ast.Await, ast.Yield, ast.YieldFrom, ast.NamedExpr)) for n in ast.walk(stmt)):
+            return None
+        for h in node.handlers:
+            ts = [h.type] if not isinstance(h.type, ast.Tuple) else list(h.type.elts)
+            if h.type is None or any((dotted(t) or "").split(".")[-1] in self._MISS_EXC for t in ts):
+                return h
+        return None
+
+    def _lookup_try(self, node, st):
+        """(handler, states in which the key is one of the table's keys, state in which it is none or None) for
+        `try: <one pure statement with one lookup LITERAL_TABLE[integer key]>  except KeyError: ...`; None for anything else"""
+        if len(node.body) != 1 or not isinstance(node.body[0], (ast.Return, ast.Assign, ast.AnnAssign, ast.Expr)):
+            return None
+        stmt = node.body[0]
+        if any(isinstance(n, (ast.Call, ast.Await, ast.Yield, ast.YieldFrom, ast.NamedExpr, ast.IfExp, ast.BoolOp)) for n in ast.walk(stmt)):
+            return None
+        subs = [n for n in ast.walk(stmt) if isinstance(n, ast.Subscript) and isinstance(n.ctx, ast.Load)]
+        if len(subs) != 1 or isinstance(subs[0].slice, (ast.Slice, ast.Tuple)):
+            return None
+        handler = None
+        for h in node.handlers:
+            ts = [h.type] if not isinstance(h.type, ast.Tuple) else list(h.type.elts)
+            if h.type is None or any((dotted(t) or "").split(".")[-1] in self._MISS_EXC for t in ts):
+                handler = h
+                break
+        if handler is None:
+            return None
+        try:
+            table = self.ev(subs[0].value, st)
+            key = self.ev(subs[0].slice, st)
+        except Unsupported:
+            return None
+        if not (isinstance(table, tuple) and table[:1] == ("dict",) and table[1] and isinstance(key, Lin) and all(is_int_const(k) for k, _ in table[1])):
+            return None
+        hits, miss = [], st
+        for k, _ in table[1]:
+            if miss is None:
+                break
+            t = ("cmp", "Eq") + tuple(sorted((k, key), key=repr))
+            r = self.decide(t, miss)
+            if r is True:
+                hits.append(miss)
+                miss = None
+            elif r is None:
+                h_ = miss.fork()
+                h_.add_fact(t, True)
+                miss.add_fact(t, False)
+                hits.append(h_)
+        return handler, hits, miss
+
+    def _key_determined(self, v, comps, st, depth=0):
+        """the value is a function of the key components `comps` (and of module-level things)"""
+        if depth > 40:
+            return False
+        if v in comps:
+            return True
+        if isinstance(v, (int, str, bool, float, Fraction)) or v is None:
+            return True
+        if isinstance(v, Lin):
+            return all(self._key_determined(at, comps, st, depth + 1) for at in v.t)
+        if isinstance(v, S):
+            return all(self._key_determined(x, comps, st, depth + 1) for part in v.p for x in part[1:] if isinstance(x, (Lin, S, tuple)))
+        if isinstance(v, tuple):
+            if v[:1] == ("sym",):
+                root = str(v[1]).split("@")[0].split(".")[0]
+                if "@" in str(v[1]):
+                    return False                              # a loop symbol
+                return root not in st.env and not any(root in fr for fr in st.frames)        # a name of the module, not of a frame
+            if v[:1] == ("k",):
+                return True
+            if v[:1] == ("op",) and len(v) > 3 and any(isinstance(x, tuple) and x[:1] == ("@site",) for x in v[3]):
+                return False                                  # a new object per call
+            if v[:1] in (("func",), ("lambda",), ("partial",), ("closure",)):
+                return False
+            return all(self._key_determined(x, comps, st, depth + 1) for x in v if isinstance(x, (Lin, S, tuple)))
+        return False
+
+    def _memo_store(self, name, key, value, st, node):
+        """a store MEMO[key] = value: remembered for later reads on this path; the value (and every test made while it was computed) must be a
+        function of the key, else a later hit could return something else than the miss path computes - then nothing is concluded (Unsupported)"""
+        info = self._memo_info(name)
+        comps = set()
+
+        def collect(k):
+            comps.add(k)
+            if isinstance(k, tuple) and k[:1] == ("tuple",):
+                for x in k[1]:
+                    collect(x)
+            if isinstance(k, tuple) and k[:1] == ("not",):
+                collect(k[1])
+        collect(key)
+        logs = getattr(self, "_memo_logs", [])
+        active = [lg for fn_, lg in logs if fn_ is info["func"]]
+        if active:
+            if not self._key_determined(value, comps, st):
+                raise Unsupported(f"memo {name}: the value stored is not a function of the key ({show(value)[:80]} under {show(key)[:80]})")
+            for t in active[-1]:
+                if not self._key_determined(t, comps, st):
+                    raise Unsupported(f"memo {name}: the value stored depends on a test that is not a function of the key ({show(t)[:80]})")
+            # two call sites whose keys may coincide would share entries computed in different ways
+            sites = info["sites"]
+            if len(sites) > 1 and not self._memo_sites_apart(info):
+                raise Unsupported(f"memo {name}: keys of different call sites of {info['func'].name} are not told apart by a literal component")
+            # ... and one key has one value on every path of this evaluation (the key read with what the path knows: a test in it decided, a
+            # quantity it fixes replaced by its value)
+            nk = self._memo_key_norm(key, st)
+            seen = self.__dict__.setdefault("_memo_seen", {}).setdefault(name, [])
+            for k2, v2 in seen:
+                if k2 == nk and v2 != value:
+                    raise Unsupported(f"memo {name}: two different values are stored under one key ({show(nk)[:80]}): {show(v2)[:60]} / {show(value)[:60]}")
+            if (nk, value) not in seen:
+                seen.append((nk, value))
+        st.env[("<memo>", name)] = tuple(x for x in st.env.get(("<memo>", name), ()) if x[0] != key) + ((key, value),)
+
+    def _memo_key_norm(self, k, st):
+        if isinstance(k, tuple) and k[:1] == ("tuple",):
+            return ("tuple", tuple(self._memo_key_norm(x, st) for x in k[1]))
+        if isinstance(k, Lin) and not k.is_const():
+            lo, hi = bounds(k, st.facts)
+            return Lin(c=lo) if lo is not None and lo == hi else k
+        if isinstance(k, tuple) and k[:1] in (("cmp",), ("not",), ("bool",), ("in",), ("sym",), ("op",), ("elem",), ("attr",)):
+            r = self.decide(k, st)                  # a test, or anything the path has tested for truth
+            return ("k", r) if r is not None else k
+        return k
+
+    def _memo_sites_apart(self, info):
+        if "apart" not in info:
+            f = info["func"]
+            npos = len(f.args.posonlyargs + f.args.args)
+            tags = []
+            for c in info["sites"]:
+                if any(isinstance(a, ast.Starred) for a in c.args) or any(k.arg is None for k in c.keywords):
+                    tags.append(None)
+                else:
+                    tags.append([a.value if isinstance(a, ast.Constant) else Ellipsis for a in c.args])
+            ok = all(t is not None for t in tags)
+            for i in range(len(tags)):
+                for j in range(i + 1, len(tags)):
+                    if not ok:
+                        break
+                    a, b = tags[i], tags[j]
+                    differ = any(x is not Ellipsis and y is not Ellipsis and x != y for x, y in zip(a, b))
+                    if not differ and not (len(a) != len(b) and f.args.vararg is not None and min(len(a), len(b)) >= npos):
+                        ok = False
+            info["apart"] = ok
+        return info["apart"]
+
+    def _memo_read(self, name, key, st):
+        """MEMO[key] read after a store under the same key on this path; None when there was none"""
+        for k, v in st.env.get(("<memo>", name), ()):
+            if k == key:
+                return v
+        return None
 
     # ------------------------------------------------------------------------------------------------------------ helpers of the same module
     MAX_DEPTH = 4
@@ -1482,8 +1857,12 @@ class Engine:
             return None
         if isinstance(v, tuple) and v:
             if v[0] == "func":
-                f = self.nested.get(v[1])
-                return (f, (), {}, v[1]) if f is not None else None
+                f = getattr(self, "funcnodes", {}).get(v[2]) if len(v) > 2 else self.nested.get(v[1])
+                return (f, (), {}, v[2] if len(v) > 2 else v[1]) if f is not None else None
+            if v[0] == "closure":
+                # a function that outlived the call that defined it: it sees the environment that call left behind
+                r = self._resolve_callable(v[1], None, st, depth + 1)
+                return (r[0], r[1], r[2], ("closure", v[2], r[3])) if r is not None else None
             if v[0] == "lambda":
                 lam = getattr(self, "lambdas", {}).get(v[1])
                 if lam is None:
@@ -1516,8 +1895,11 @@ class Engine:
     def _callee(self, call, st):
         if self.follow is None or self.depth >= self.MAX_DEPTH or not isinstance(call, ast.Call):
             return None
-        if any(k.arg is None for k in call.keywords):
-            return None
+        for k in call.keywords:
+            if k.arg is None and not (isinstance(k.value, ast.Name) and st.env.get(k.value.id) == ("op", "dict", ())):
+                return None                                   # **mapping: only the empty one a `**kwargs` parameter received
+        if isinstance(call.func, _Val):
+            return self._resolve_callable(call.func.v, None, st)
         for a in call.args:
             if isinstance(a, ast.Starred):
                 v = st.env.get(a.value.id) if isinstance(a.value, ast.Name) else None
@@ -1619,7 +2001,123 @@ class Engine:
             return r if len(r) > 4 else None          # a constructor without __init__
         if _is_generator(r[0]) or (self.follow_if is not None and not self.follow_if(r[0])):
             return None
+        if self._calls_itself(r[0]):
+            # a function that calls itself in tail position only is the loop it spells; any other recursion is not followed - and since the
+            # function may write, nothing can be concluded then
+            loop = self._tail_loop(r[0])
+            if loop is None:
+                raise Unsupported(f"recursive function {r[0].name} (not only in tail position)")
+            r = (loop,) + tuple(r[1:])
+        elif any(f is r[0] for f in getattr(self, "_inline_stack", ())):
+            raise Unsupported(f"mutually recursive function {r[0].name}")
         return r
+
+    @staticmethod
+    def _calls_itself(fnode):
+        c = getattr(fnode, "_c13_selfrec", None)
+        if c is None:
+            c = fnode._c13_selfrec = any(isinstance(n, ast.Call) and isinstance(n.func, ast.Name) and n.func.id == fnode.name
+                                         for b in fnode.body for n in ast.walk(b)) and not any(
+                isinstance(n, ast.Name) and isinstance(n.ctx, ast.Store) and n.id == fnode.name for b in fnode.body for n in ast.walk(b))
+        return c
+
+    def _tail_loop(self, fnode):
+        """`def f(p): ...; f(e)` with every call of itself in tail position  ->  `def f(p): while True: ...; p = e; continue` (what falls off the end
+        returns).  None when a call of itself is anywhere else (inside an expression, a loop, before other statements)."""
+        if hasattr(fnode, "_c13_tail"):
+            return fnode._c13_tail
+        fnode._c13_tail = None
+        name = fnode.name
+        a = fnode.args
+        if a.vararg or a.kwarg:
+            return None
+        pos = [x.arg for x in a.posonlyargs + a.args]
+        params = pos + [x.arg for x in a.kwonlyargs]
+        defaults = dict(zip(pos[len(pos) - len(a.defaults):], a.defaults))
+        defaults.update({x.arg: d for x, d in zip(a.kwonlyargs, a.kw_defaults) if d is not None})
+        if any(not isinstance(d, ast.Constant) for d in defaults.values()):
+            return None
+
+        class No(Exception):
+            pass
+
+        def is_self(n):
+            return isinstance(n, ast.Call) and isinstance(n.func, ast.Name) and n.func.id == name
+
+        def has_self(n):
+            return any(is_self(x) for x in ast.walk(n))
+
+        def mk(node, like):
+            ast.copy_location(node, like)
+            node._vmod = getattr(like, "_vmod", None)
+            for ch in ast.walk(node):
+                if not hasattr(ch, "lineno") and isinstance(ch, (ast.expr, ast.stmt)):
+                    ast.copy_location(ch, like)
+            return node
+
+        def rebind(call, like):
+            if any(isinstance(x, ast.Starred) for x in call.args) or any(k.arg is None for k in call.keywords) or len(call.args) > len(pos):
+                raise No()
+            if any(has_self(x) for x in call.args) or any(has_self(k.value) for k in call.keywords):
+                raise No()
+            new = dict(zip(pos, call.args))
+            for k in call.keywords:
+                if k.arg not in params or k.arg in new:
+                    raise No()
+                new[k.arg] = k.value
+            for p_ in params:
+                if p_ not in new:
+                    if p_ not in defaults:
+                        raise No()
+                    new[p_] = defaults[p_]
+            changed = [p_ for p_ in params if not (isinstance(new[p_], ast.Name) and new[p_].id == p_)]
+            out = []
+            uses = lambda e, nm: any(isinstance(x, ast.Name) and x.id == nm for x in ast.walk(e))
+            sequential = all(not uses(new[q], p_) for i, p_ in enumerate(changed) for q in changed[i + 1:])
+            if sequential:
+                for p_ in changed:
+                    out.append(mk(ast.Assign(targets=[ast.Name(id=p_, ctx=ast.Store())], value=new[p_], type_comment=None), like))
+            elif changed:
+                out.append(mk(ast.Assign(targets=[ast.Tuple(elts=[ast.Name(id=p_, ctx=ast.Store()) for p_ in changed], ctx=ast.Store())],
+                                         value=ast.Tuple(elts=[new[p_] for p_ in changed], ctx=ast.Load()), type_comment=None), like))
+            out.append(mk(ast.Continue(), like))
+            return out
+
+        def conv(stmts, tail):
+            out = []
+            for i, s_ in enumerate(stmts):
+                last = tail and i == len(stmts) - 1
+                if isinstance(s_, ast.Return) and s_.value is not None and is_self(s_.value):
+                    out.extend(rebind(s_.value, s_))
+                    continue
+                if isinstance(s_, ast.Expr) and is_self(s_.value):
+                    nxt = stmts[i + 1] if i + 1 < len(stmts) else None
+                    if not (last or (isinstance(nxt, ast.Return) and nxt.value is None)):
+                        raise No()
+                    out.extend(rebind(s_.value, s_))
+                    continue
+                if has_self(s_):
+                    if isinstance(s_, ast.If) and last and not has_self(s_.test):
+                        out.append(mk(ast.If(test=s_.test, body=conv(s_.body, True), orelse=conv(s_.orelse, True)), s_))
+                        continue
+                    raise No()
+                out.append(s_)
+            if tail and not (out and isinstance(out[-1], (ast.Return, ast.Continue, ast.Raise))):
+                out.append(mk(ast.Return(value=None), stmts[-1] if stmts else fnode))
+            return out
+        try:
+            body = conv(list(fnode.body), True)
+        except No:
+            return None
+        loop = mk(ast.While(test=ast.Constant(value=True), body=body, orelse=[]), fnode)
+        new = mk(ast.FunctionDef(name=name, args=fnode.args, body=[loop], decorator_list=[], returns=None, type_comment=None), fnode)
+        new._vparent = getattr(fnode, "_vparent", None)
+        loop._vparent = new
+        new._c13_closure = bool(getattr(fnode, "_c13_closure", False) or fnode in self.nested.values() or id(fnode) in getattr(self, "funcnodes", {}))
+        new._c13_selfrec = False
+        new._c13_origin = fnode
+        fnode._c13_tail = new
+        return new
 
     def _generator_of(self, call, st):
         r = self._callee(call, st)
@@ -1627,9 +2125,53 @@ class Engine:
             return None
         return r
 
+    def _def_defaults(self, args, key, st):
+        """the default values of a `def` / lambda, evaluated where and when it is executed; kept in the defining environment"""
+        try:
+            pos = tuple(self.ev(d, st) for d in args.defaults)
+            kw = tuple(self.ev(d, st) if d is not None else None for d in args.kw_defaults)
+        except Unsupported:
+            return
+        if pos or any(x is not None for x in kw):
+            st.env[("<defaults>", key)] = (pos, kw)
+
+    def _close_over(self, val, env, depth):
+        """a function value defined in the activation that is being left (depth `depth`) keeps that activation's final environment"""
+        dd = getattr(self, "defdepth", {})
+        found = [False]
+
+        def here(v):
+            return isinstance(v, tuple) and ((v[:1] == ("func",) and len(v) > 2 and dd.get(v[2]) == depth) or (v[:1] == ("lambda",) and dd.get(v[1]) == depth))
+
+        def scan(v):
+            if here(v):
+                found[0] = True
+            elif isinstance(v, tuple) and v[:1] != ("closure",):
+                for x in v:
+                    if isinstance(x, tuple):
+                        scan(x)
+        scan(val)
+        if not found[0]:
+            return val
+        self._closure_envs = getattr(self, "_closure_envs", {})
+        cid = len(self._closure_envs) + 1
+        env2 = self._closure_envs[cid] = {}
+
+        def conv(v):
+            if here(v):
+                return ("closure", v, cid)
+            if isinstance(v, tuple) and v[:1] != ("closure",):
+                return tuple(conv(x) if isinstance(x, tuple) else x for x in v)
+            return v
+        for k, v in env.items():
+            env2[k] = conv(v) if isinstance(v, tuple) else v
+        return conv(val)
+
     def _closure_env(self, fnode, key, st):
         """the environment a nested function / lambda sees besides its parameters: that of the frame that defined it"""
-        if not (fnode in self.nested.values() or getattr(fnode, "_c13_closure", False)):
+        if isinstance(key, tuple) and key[:1] == ("closure",):
+            return self._closure_envs[key[1]]
+        if not (fnode in self.nested.values() or getattr(fnode, "_c13_closure", False) or id(fnode) in getattr(self, "funcnodes", {})):
             return {}
         dd = getattr(self, "defdepth", {}).get(key)
         if dd is None or dd >= len(st.frames):
@@ -1647,7 +2189,7 @@ class Engine:
             else:
                 args.append(v)
         kws = dict(pre_kws)
-        kws.update({k.arg: self.ev(k.value, st) for k in call.keywords})
+        kws.update({k.arg: self.ev(k.value, st) for k in call.keywords if k.arg is not None})          # `**{}` adds nothing (checked by _callee)
         a = fnode.args
         pos = a.posonlyargs + a.args
         if len(args) > len(pos) and not a.vararg:
@@ -1660,12 +2202,21 @@ class Engine:
         for k, v in kws.items():
             bound[k] = v
         dpos = pos[len(pos) - len(a.defaults):]
-        for p_, dv in zip(dpos, a.defaults):
+        # defaults were evaluated when the `def` / lambda was executed, in the environment of that moment
+        ikey = key[2] if isinstance(key, tuple) and key[:1] == ("closure",) else key
+        rec = None
+        try:
+            rec = self._closure_env(fnode, key, st).get(("<defaults>", ikey))
+        except (KeyError, AttributeError, IndexError):
+            rec = None
+        if rec is not None and (len(rec[0]) != len(a.defaults) or len(rec[1]) != len(a.kw_defaults)):
+            rec = None
+        for i_, (p_, dv) in enumerate(zip(dpos, a.defaults)):
             if p_.arg not in bound:
-                bound[p_.arg] = self.ev(dv, State())
-        for p_, dv in zip(a.kwonlyargs, a.kw_defaults):
+                bound[p_.arg] = rec[0][i_] if rec is not None and rec[0][i_] is not None else self.ev(dv, State())
+        for i_, (p_, dv) in enumerate(zip(a.kwonlyargs, a.kw_defaults)):
             if p_.arg not in bound and dv is not None:
-                bound[p_.arg] = self.ev(dv, State())
+                bound[p_.arg] = rec[1][i_] if rec is not None and rec[1][i_] is not None else self.ev(dv, State())
         if a.kwarg and a.kwarg.arg not in bound:
             bound[a.kwarg.arg] = ("op", "dict", ())
         for p_ in pos + a.kwonlyargs:
@@ -1695,10 +2246,18 @@ class Engine:
             if isinstance(n, ast.FunctionDef):
                 self.nested[n.name] = n
         self.depth += 1
+        self._inline_stack = getattr(self, "_inline_stack", []) + [fnode]
+        self._memo_logs = getattr(self, "_memo_logs", [])
+        logged = id(fnode) in self._memo_holders()
+        if logged:
+            self._memo_logs.append((fnode, []))           # the tests made while a memo function runs: what it stores must not depend on more than the key
         try:
             outs = self.block(fnode.body, [sub])
         finally:
             self.depth -= 1
+            self._inline_stack = self._inline_stack[:-1]
+            if logged:
+                self._memo_logs.pop()
             self.locals, self.nested = saved_locals, saved_nested
         res = []
         for o in outs:
@@ -1708,6 +2267,7 @@ class Engine:
             if o.status == "return":
                 rets = [e for e in o.events if e.kind == "return"]
                 val = rets[-1].d["value"] if rets else ("k", None)
+                val = self._close_over(val, o.env, len(st.frames) + 1)
                 o.events = [e for e in o.events if e is not rets[-1]] if rets else o.events
                 c.events = list(o.events)
                 c.status = "run"
@@ -1725,29 +2285,72 @@ class Engine:
 
     def _match_as_if(self, node):
         """`match x: case 1: A; case 2 | 3: B; case _: C` (literal values, `_`, guards) as the if / elif chain it is"""
-        def test_of(pat):
+        def conj(ts):
+            ts = [t for t in ts if not (isinstance(t, ast.Constant) and t.value is True)]
+            return ast.Constant(value=True) if not ts else ts[0] if len(ts) == 1 else ast.BoolOp(op=ast.And(), values=ts)
+
+        def test_of(pat, subj, binds):
+            """the test a pattern makes on the subject expression `subj`; names it captures go to `binds` [(name, expression)]"""
             if isinstance(pat, ast.MatchValue):
-                return ast.Compare(left=node.subject, ops=[ast.Eq()], comparators=[pat.value])
+                return ast.Compare(left=subj, ops=[ast.Eq()], comparators=[pat.value])
             if isinstance(pat, ast.MatchSingleton):
-                return ast.Compare(left=node.subject, ops=[ast.Is()], comparators=[ast.Constant(value=pat.value)])
+                return ast.Compare(left=subj, ops=[ast.Is()], comparators=[ast.Constant(value=pat.value)])
             if isinstance(pat, ast.MatchOr):
-                ts = [test_of(p_) for p_ in pat.patterns]
-                return None if any(t is None for t in ts) else ast.BoolOp(op=ast.Or(), values=ts)
-            if isinstance(pat, ast.MatchAs) and pat.pattern is None and pat.name is None:
-                return ast.Constant(value=True)
+                inner = []
+                ts = [test_of(p_, subj, inner) for p_ in pat.patterns]
+                return None if any(t is None for t in ts) or inner else ast.BoolOp(op=ast.Or(), values=ts)
+            if isinstance(pat, ast.MatchAs):
+                t = ast.Constant(value=True) if pat.pattern is None else test_of(pat.pattern, subj, binds)
+                if t is not None and pat.name is not None:
+                    binds.append((pat.name, subj))
+                return t
+            if isinstance(pat, ast.MatchClass) and not pat.patterns and not pat.kwd_patterns and isinstance(pat.cls, (ast.Name, ast.Attribute)):
+                # `case str():` is isinstance(subject, str)
+                return ast.Call(func=ast.Name(id="isinstance", ctx=ast.Load()), args=[subj, pat.cls], keywords=[])
+            if isinstance(pat, ast.MatchSequence) and isinstance(subj, (ast.Tuple, ast.List)) and len(subj.elts) == len(pat.patterns) \
+                    and not any(isinstance(p_, ast.MatchStar) for p_ in pat.patterns) and not any(isinstance(e_, ast.Starred) for e_ in subj.elts):
+                # a tuple written in place matched against a sequence pattern of the same length: element by element
+                ts = [test_of(p_, e_, binds) for p_, e_ in zip(pat.patterns, subj.elts)]
+                return None if any(t is None for t in ts) else conj(ts)
             return None
+
+        class _Sub(ast.NodeTransformer):
+            def __init__(self, mp):
+                self.mp = mp
+
+            def visit_Name(self, n):
+                return self.mp.get(n.id, n) if isinstance(n.ctx, ast.Load) else n
+
         if not isinstance(node.subject, (ast.Name, ast.Attribute, ast.Constant, ast.Subscript, ast.Compare, ast.BoolOp, ast.UnaryOp, ast.Tuple)):
             return None
-        if isinstance(node.subject, ast.Tuple):
+        if isinstance(node.subject, ast.Tuple) and not all(isinstance(e_, (ast.Name, ast.Attribute, ast.Constant, ast.Subscript, ast.Compare, ast.BoolOp, ast.UnaryOp))
+                                                           for e_ in node.subject.elts):
             return None
         orelse = []
         for case in reversed(node.cases):
-            t = test_of(case.pattern)
+            binds = []
+            t = test_of(case.pattern, node.subject, binds)
             if t is None:
                 return None
+            body = case.body
+            if binds:
+                if len({nm for nm, _ in binds}) != len(binds):
+                    return None
+                # a captured name is the (pure) subject expression: in the guard it is replaced by it, in the body it is bound first
+                pre = []
+                for nm, ex in binds:
+                    a_ = ast.Assign(targets=[ast.Name(id=nm, ctx=ast.Store())], value=ex, type_comment=None)
+                    pre.append(a_)
+                body = pre + list(case.body)
             if case.guard is not None:
-                t = ast.BoolOp(op=ast.And(), values=[t, case.guard])
-            cur = ast.If(test=t, body=case.body, orelse=orelse)
+                g = _Sub(dict(binds)).visit(_copy_renamed(case.guard, {}, getattr(case.guard, "_vparent", None))) if binds else case.guard
+                t = conj([t, g])
+            cur = ast.If(test=t, body=body, orelse=orelse)
+            for st_ in body[:len(binds)]:
+                for n in ast.walk(st_):
+                    if not hasattr(n, "lineno"):
+                        ast.copy_location(n, case.pattern)
+                st_._vparent, st_._vmod = cur, getattr(node, "_vmod", None)
             for n in ast.walk(t):
                 if not hasattr(n, "lineno"):
                     ast.copy_location(n, case.pattern)
@@ -2078,6 +2681,9 @@ class Engine:
         elif isinstance(target, ast.Subscript):
             base = self.ev(target.value, st)
             idx = self.index(target.slice, st)
+            mname = self._memo_name(target.value)
+            if mname is not None:
+                self._memo_store(mname, idx, v, st, node)
             self.emit(st, "store", node, base=base, index=idx, value=v, name=dotted(target.value))
         elif isinstance(target, ast.Attribute):
             d = dotted(target)
@@ -2092,6 +2698,9 @@ class Engine:
         r = truth(t, {})
         if r is not None:
             return r
+        for _, lg in getattr(self, "_memo_logs", ()):
+            if t not in lg:
+                lg.append(t)
         if isinstance(t, tuple) and t and t[0] == "not":
             r = self.decide(t[1], st)
             if r is not None:
@@ -2149,6 +2758,7 @@ class Engine:
         for s, t in starts:
             if t is None:
                 t = self.ev(node.test, s)
+            s.pre = {}
             self.emit(s, "test", node, test=t)
             r = self.decide(t, s)
             if r is True:
@@ -2322,10 +2932,13 @@ class Engine:
                         seen.add(e.seq)
                         merged.append(e)
             merged.sort(key=lambda e: e.seq)
-            # paths that return / raise inside the body end there
+            # paths that return / raise inside the body end there; a `return` leaves the loop like a `break` does (the pass it is in stands for any
+            # pass: the passes before it are those of the other arms)
             for e_state in ends:
                 if e_state.status in ("return", "raise", "genreturn"):
                     e_state.loops = post.loops
+                    if e_state.status == "return":
+                        self._loop_left_by_return(e_state, merged, node, lid, names)
                     outs.append(e_state)
             for e_state in ends:
                 if e_state.status == "break":
@@ -2380,6 +2993,21 @@ class Engine:
             else:
                 outs.extend(posts)
         return outs
+
+    def _loop_left_by_return(self, e_state, merged, node, lid, names):
+        """a path that returns from inside a loop: like one that leaves by `break` it carries the events of the other arms (the passes before the last
+        one) and a `loopexit` event placed before the `return` event"""
+        rets = [e for e in e_state.events if e.kind == "return"]
+        if not rets or lid not in rets[-1].loops:
+            return                       # the return belongs to a function that was inlined and has already been consumed
+        ret = rets[-1]
+        have = {e.seq for e in e_state.events}
+        evs = [e for e in e_state.events if e is not ret] + [e for e in merged if e.seq not in have]
+        e_state.events = sorted(evs, key=lambda e: e.seq)
+        st_loops = e_state.loops
+        self.emit(e_state, "loopexit", node, loop=lid, env={nm: e_state.env.get(nm) for nm in names}, by="break", returned=True)
+        self.seq += 1
+        e_state.events.append(Event("return", ret.node, ret.d, ret.facts, st_loops, self.seq))
 
     def _used_outside(self, loop, name):
         """the name is read somewhere in the enclosing function outside the loop (so the value the loop leaves in it may matter)"""
@@ -2479,6 +3107,8 @@ class Engine:
             for e_state in ends:
                 if e_state.status in ("return", "raise", "genreturn"):
                     e_state.loops = post.loops
+                    if e_state.status == "return":
+                        self._loop_left_by_return(e_state, merged, node, lid, names)
                     outs.append(e_state)
             # a path that leaves by `break` goes on with what it knows at the break (the pass it is in stands for any pass)
             for e_state in ends:
@@ -2691,6 +3321,10 @@ class Engine:
         for k, v in table[1]:
             if k == key:
                 return v
+        if isinstance(key, Lin) and not key.is_const() and st.facts:
+            for k, v in table[1]:
+                if isinstance(k, Lin) and self.decide(("cmp", "Eq") + tuple(sorted((k, key), key=repr)), st) is True:
+                    return v                     # the tests passed on the way say which key it is
         return ("elem", table, key)
 
     STR_METHODS = {".replace", ".rstrip", ".lstrip", ".strip", ".upper", ".lower", ".ljust", ".rjust", ".center", ".expandtabs", ".zfill", ".join", ".format"}
@@ -2885,7 +3519,8 @@ class Engine:
             if d is not None:
                 root = d.split(".")[0]
                 if root not in st.env:
-                    return ("sym", d)
+                    cc = self._class_const(d) if root not in self.locals else None
+                    return cc if cc is not None else ("sym", d)
             base = self.ev(node.value, st)
             if isinstance(base, tuple) and base[:1] == ("obj",):
                 for k_, v_ in base[2]:
@@ -2899,6 +3534,11 @@ class Engine:
         if isinstance(node, ast.Subscript):
             base = self.ev(node.value, st)
             idx = self.index(node.slice, st)
+            mname = self._memo_name(node.value)
+            if mname is not None:
+                got = self._memo_read(mname, idx, st)
+                if got is not None:
+                    return got
             if isinstance(base, tuple) and base[:1] == ("tuple",) and len(base[1]) == 2 and (_is_test_node(node.slice) or _truthlike(idx)):
                 r = self.decide(idx, st)              # (b, a)[test]  is  a if test else b
                 if r is not None:
@@ -2938,6 +3578,10 @@ class Engine:
                 return -v - 1          # ~x == -x - 1
             return ("op", "~", (v,))
         if isinstance(node, ast.Compare):
+            if len(node.ops) == 1 and isinstance(node.ops[0], (ast.In, ast.NotIn)) and self._memo_name(node.comparators[0]) is not None:
+                # `key in MEMO`: the miss is followed (a hit returns what a miss stored, see _memo_info) - unless this path stored the key itself
+                here = self._memo_read(self._memo_name(node.comparators[0]), self.ev(node.left, st), st) is not None
+                return ("k", here == isinstance(node.ops[0], ast.In))
             vals = [self.ev(node.left, st)] + [self.ev(c, st) for c in node.comparators]
             tests = []
             for i, op in enumerate(node.ops):
@@ -3057,6 +3701,7 @@ class Engine:
             self.lambdas[id(node)] = node
             self.defdepth = getattr(self, "defdepth", {})
             self.defdepth[id(node)] = len(st.frames)
+            self._def_defaults(node.args, id(node), st)
             return ("lambda", id(node))
         if isinstance(node, _Val):
             return node.v
@@ -3159,6 +3804,16 @@ class Engine:
 
     def _call_value(self, node, st, name, recv, attr, args, kws):
         nargs = len(args)
+        if attr in ("get", "setdefault") and isinstance(node.func, ast.Attribute) and self._memo_name(node.func.value) is not None and 1 <= nargs <= 2 and not kws:
+            mname = self._memo_name(node.func.value)
+            got = self._memo_read(mname, args[0], st)
+            if got is not None:
+                return got
+            if attr == "get":
+                return args[1] if nargs == 2 else ("k", None)          # the miss (a hit returns what a miss stored, see _memo_info)
+            val = args[1] if nargs == 2 else ("k", None)
+            self._memo_store(mname, args[0], val, st, node)
+            return val
         if name == "len" and nargs == 1:
             return self.length(args[0], st)
         if name in ("int", "float") and nargs == 1 and isinstance(args[0], Lin):
@@ -3188,7 +3843,7 @@ class Engine:
             return ("op", name, tuple(args)) if not kws else ("op", name, tuple(args), tuple(sorted(kws.items())))
         if name in IDENT_CALLS and name.split(".")[-1].startswith("atleast_") and nargs > 1 and not kws:
             return ("tuple", tuple(("op", name, (a,)) for a in args))      # np.atleast_1d(t, d) -> [atleast_1d(t), atleast_1d(d)]
-        if name in ("functools.partial", "partial") and nargs >= 1 and isinstance(args[0], tuple) and args[0][:1] in (("sym",), ("func",), ("lambda",), ("partial",)):
+        if name in ("functools.partial", "partial") and nargs >= 1 and isinstance(args[0], tuple) and args[0][:1] in (("sym",), ("func",), ("lambda",), ("partial",), ("closure",)):
             return ("partial", args[0], tuple(args[1:]), tuple(sorted(kws.items())))
         if name == "divmod" and nargs == 2 and is_int_const(lin(args[1])) and ival(lin(args[1])) > 0:
             k = ival(lin(args[1]))
